@@ -1,4 +1,5 @@
 import TakVerif.Proofs.Reach
+import TakVerif.Proofs.FromSquares
 import TakVerif.Proofs.Examples
 
 /-! C01 — applying a move succeeds iff it is legal Tak and yields the exact successor.
@@ -57,6 +58,21 @@ theorem move_refines : move_refines_statement :=
 /-- `New` builds a well-formed position for every accepted configuration (sizes 3..8, default or custom counts) -/
 theorem new_wf (basis : Array W) (cfg : Cfg) (p : Pos) (h : Pos.new cfg = .ok p) : WF basis p :=
   Tak.new_wf basis h
+
+/-- **`FromSquares` output is well-formed** ("every well-formed constructed board"): for every configuration `New`
+accepts, every ply counter ≥ 0 and every board whose squares hold at most 64 pieces each, whatever bytes it
+contains: if `FromSquares` returns a position at all (any byte that is not one of the six piece codes makes it return
+an error), that position satisfies `WF`.  (That its squares are the input squares is checked by correspondence
+only, op `rebuild`.) -/
+theorem fromSquares_wf (basis : Array W) (cfg : Cfg) (board : List (List Nat)) (move : Int) (q : Pos)
+    (hm : 0 ≤ move) (hlen : ∀ sq ∈ board, sq.length ≤ 64)
+    (h : Pos.fromSquares basis cfg board move = .ok q) : WF basis q :=
+  Tak.fromSquares_wf basis cfg board move q hm hlen h
+
+/-- instance: rebuilding the position after a1 e5 b1 b2 b1+ a1> (stacks of height 2 on b1 and b2) from its squares -/
+example : ∃ q, Pos.fromSquares Ex.basis Ex.after.cfg
+      ((Spec.abs Ex.after).squares.map (fun sq => sq.map Piece.code)) Ex.after.move = .ok q ∧ q.equal Ex.after = true :=
+  ⟨_, by rfl, by decide +kernel⟩
 
 /-- along any sequence of non-pass moves (with the 64-piece limit at each step) from a well-formed position,
 the model and the rule book stay in step and every position met is well-formed -/
